@@ -190,6 +190,21 @@ void snoopy_tsrm_init ()
 
 
 /*
+ * snoopy_tsrm_onLoad
+ *
+ * Description:
+ *     Registers the fork handlers when the library is loaded, not during the first wrapped call: a fork()
+ *     that another thread has already begun at that moment (glibc has taken its snapshot of the handlers)
+ *     runs none of them, and its child inherits whatever lock the first caller holds.
+ */
+__attribute__((constructor)) static void snoopy_tsrm_onLoad (void)
+{
+    pthread_once(&snoopy_tsrm_init_onceControl, &snoopy_tsrm_init);
+}
+
+
+
+/*
  * snoopy_tsrm_atfork_prepare
  *
  * Description:
